@@ -77,6 +77,7 @@ type consumeResult struct {
 	Site  string
 	Items int
 	Canon string
+	Trees itemsOut
 }
 
 func consumeAny(c *arrow_record.Consumer, signal string, bar *colarspb.BatchArrowRecords) (res consumeResult) {
@@ -93,6 +94,7 @@ func consumeAny(c *arrow_record.Consumer, signal string, bar *colarspb.BatchArro
 		for _, td := range tds {
 			res.Items += td.SpanCount()
 			res.Canon += canonTraces(td)
+			res.Trees = tracesItems(td)
 		}
 		if e == nil && len(tds) == 0 {
 			res.Items = -1
@@ -102,6 +104,7 @@ func consumeAny(c *arrow_record.Consumer, signal string, bar *colarspb.BatchArro
 		err = e
 		for _, ld := range lds {
 			res.Items += ld.LogRecordCount()
+			res.Trees = logsItems(ld)
 		}
 		if e == nil && len(lds) == 0 {
 			res.Items = -1
@@ -111,6 +114,7 @@ func consumeAny(c *arrow_record.Consumer, signal string, bar *colarspb.BatchArro
 		err = e
 		for _, md := range mds {
 			res.Items += md.MetricCount()
+			res.Trees = metricsItems(md)
 		}
 		if e == nil && len(mds) == 0 {
 			res.Items = -1
